@@ -3,6 +3,7 @@ Compiler correctness, part 3: single iterations of the interpreter at an instruc
 what `step` does in forward mode (`Entry`) and after `backtrack()` popped a frame of that instruction (`BackEntry`).
 -/
 import RegexVerif.Lemmas.CompileCode
+import RegexVerif.Lemmas.CompileSpec
 
 namespace RegexVerif.Compile
 open RegexVerif.VM RegexVerif.Code RegexVerif.Writer RegexVerif.Generated.Opcodes RegexVerif RegexVerif.Lemmas.VM
@@ -384,6 +385,113 @@ theorem caseChar_delivers (hrel : EnvRel TPx sets X.env X.se) (hi : i ≤ X.se.n
     exact deliver_none he hb rfl rfl rfl
 
 end chars
+
+/-! ## literal strings -/
+
+section multi
+variable {X : Setup} {TPx : TP} {sets : List (List Nat)} {a i : Nat} {T S : List Int} {C : List (Nat × Nat × Nat)}
+  {s : VMState}
+
+theorem take_succ_eq_iff {α : Type} (l1 l2 : List α) (k : Nat) (x y : α) (h1 : l1[k]? = some x) (h2 : l2[k]? = some y) :
+    l1.take (k + 1) = l2.take (k + 1) ↔ l1.take k = l2.take k ∧ x = y := by
+  rw [List.take_succ, List.take_succ, h1, h2]
+  simp only [Option.toList_some]
+  have hl1 : (l1.take k).length = k := by
+    have := (List.getElem?_eq_some_iff.1 h1).1; simp [List.length_take]; omega
+  have hl2 : (l2.take k).length = k := by
+    have := (List.getElem?_eq_some_iff.1 h2).1; simp [List.length_take]; omega
+  constructor
+  · intro h
+    have := List.append_inj h (by rw [hl1, hl2])
+    exact ⟨this.1, by simpa using this.2⟩
+  · rintro ⟨h, rfl⟩; rw [h]
+
+/-- the comparison loop of `runematch`, left to right, case-sensitive -/
+theorem cmpBack_spec (hrel : EnvRel TPx sets X.env X.se) (str : List Nat) (i : Nat) :
+    ∀ k, k ≤ str.length → i + k ≤ X.se.n →
+      VM.cmpBack X.env false (fun j => .ok (str.getD j.toNat 0)) k (k : Int) ((i + k : Nat) : Int) =
+        .ok (decide ((X.se.text.drop i).take k = str.take k)) := by
+  intro k
+  induction k with
+  | zero => intro _ _; simp [VM.cmpBack]
+  | succ k ih =>
+    intro hk hn
+    obtain ⟨c, hc, hch⟩ := charAt_lt hrel (i + k) (by omega)
+    have e1 : ((k + 1 : Nat) : Int) - 1 = (k : Int) := by omega
+    have e2 : ((i + (k + 1) : Nat) : Int) - 1 = ((i + k : Nat) : Int) := by omega
+    have hklt : k < str.length := by omega
+    obtain ⟨x, hx⟩ : ∃ x, str[k]? = some x := ⟨str[k], by simp [hklt]⟩
+    have hgd : str.getD k 0 = x := by simp [List.getD_eq_getElem?_getD, hx]
+    have hc' : (X.se.text.drop i)[k]? = some c := by rw [List.getElem?_drop]; exact hc
+    unfold VM.cmpBack
+    simp only [e1, e2, hch, Int.toNat_natCast, Bool.false_eq_true, if_false, hgd]
+    have hd : decide ((X.se.text.drop i).take (k + 1) = str.take (k + 1)) =
+        decide ((X.se.text.drop i).take k = str.take k ∧ c = x) := by
+      rw [decide_eq_decide]; exact take_succ_eq_iff _ _ k c x hc' hx
+    rw [hd]
+    by_cases heq : x = c
+    · subst heq
+      rw [if_pos rfl, ih (by omega) (by omega)]
+      simp
+    · rw [if_neg heq]
+      have : ¬ c = x := fun h => heq h.symm
+      simp [this]
+
+theorem multi_delivers (hrel : EnvRel TPx sets X.env X.se) (hi : i ≤ X.se.n) (he : Entry X a i T S C s)
+    {k : Nat} {str : List Nat} (hia : InstrAt X.p a (i1 (opMulti ||| bits false false) (k : Int)))
+    (hstr : X.p.strings[k]? = some str) (hf : ∃ w, VM.fetch X.p (a + 2) = .ok w) :
+    Delivers X (a + 2) T S S C (Spec.m X.se (nestSeq (str.map (fun r => .chr (.one r false)))) false ⟨i, C⟩) s := by
+  have hoper : s.oper = ⟨opMulti, false, false, false, false⟩ := by
+    rw [he.oper hia]; exact (decode_bits opMulti (by decide) false false).2
+  have hop : Op.ofNat? s.oper.op = some .multi := by rw [hoper]; rfl
+  have hb : s.oper.back = false := by rw [hoper]
+  have hb2 : s.oper.back2 = false := by rw [hoper]
+  have hrtl : s.oper.rtl = false := by rw [hoper]
+  have hci : s.oper.ci = false := by rw [hoper]
+  have hk0 : (0 : Int) ≤ (k : Int) := by omega
+  rw [m_multi]
+  by_cases hlen : i + str.length ≤ X.se.n
+  · have hfc : ¬ (VM.forwardchars X.env s < (str.length : Int)) := by
+      simp only [VM.forwardchars, hrtl, Bool.false_eq_true, if_false, env_len hrel, he.tp]; omega
+    have hcmp := cmpBack_spec hrel str i str.length (Nat.le_refl _) hlen
+    have epos : (i : Int) + (str.length : Int) = ((i + str.length : Nat) : Int) := by omega
+    rw [List.take_length] at hcmp
+    have hrm : VM.runematch X.env s str =
+        .ok (if (X.se.text.drop i).take str.length = str then some ((i : Int) + (str.length : Int)) else none) := by
+      unfold VM.runematch
+      simp only [hfc, if_false, hrtl, Bool.false_eq_true, hci, he.tp, epos]
+      rw [hcmp]
+      by_cases heq : (X.se.text.drop i).take str.length = str
+      · simp [heq]
+      · simp [heq]
+    by_cases heq : (X.se.text.drop i).take str.length = str
+    · rw [if_pos heq] at hrm ⊢
+      have hbody : VM.body X.p X.env s = .ok (VM.textto s ((i : Int) + (str.length : Int)), .advance 1) := by
+        simp only [body, hop, modeOf, hb, hb2, caseMulti, bind, Except.bind, hia.operand he.pc 0 (k : Int) rfl, hk0,
+          if_true, Int.toNat_natCast, hstr, hrm, pure, Except.pure]
+      exact deliver_one (k := 1) he hbody rfl rfl rfl rfl (by simp [VM.textto]) hf
+    · rw [if_neg heq] at hrm ⊢
+      have hbody : VM.body X.p X.env s = .ok (s, .back) := by
+        simp only [body, hop, modeOf, hb, hb2, caseMulti, bind, Except.bind, hia.operand he.pc 0 (k : Int) rfl, hk0,
+          if_true, Int.toNat_natCast, hstr, hrm, pure, Except.pure]
+      exact deliver_none he hbody rfl rfl rfl
+  · have hfc : VM.forwardchars X.env s < (str.length : Int) := by
+      simp only [VM.forwardchars, hrtl, Bool.false_eq_true, if_false, env_len hrel, he.tp]; omega
+    have hrm : VM.runematch X.env s str = .ok none := by
+      unfold VM.runematch; simp only [hfc, if_true]
+    have hne : ¬ (X.se.text.drop i).take str.length = str := by
+      intro h
+      have := congrArg List.length h
+      simp [List.length_take] at this
+      unfold Spec.Env.n at hlen hi
+      omega
+    rw [if_neg hne]
+    have hbody : VM.body X.p X.env s = .ok (s, .back) := by
+      simp only [body, hop, modeOf, hb, hb2, caseMulti, bind, Except.bind, hia.operand he.pc 0 (k : Int) rfl, hk0,
+        if_true, Int.toNat_natCast, hstr, hrm, pure, Except.pure]
+    exact deliver_none he hbody rfl rfl rfl
+
+end multi
 
 /-! ## control instructions -/
 
